@@ -159,47 +159,105 @@ def check_memo_keys(rule, idx, f: FunctionInfo) -> int:
 INPLACE_METHODS = ("fill", "sort", "resize", "put", "itemset", "partition", "setfield", "clip_", "append", "extend", "update", "clear", "pop", "insert")
 
 
+def cache_providers(cls) -> Dict[str, FunctionInfo]:
+    """methods that hand out an object they keep on self: `return self.C[K]` of a memo site, or `return self.X` where self.X is assigned under a
+    guard that tests self.X (`if self.X is None:` / `if getattr(self, 'X', None) is None:` / `if not hasattr(self, 'X')`)"""
+    out: Dict[str, FunctionInfo] = {}
+    for m in cls.methods.values():
+        rets = [r for r in ast.walk(m.node) if isinstance(r, ast.Return) and r.value is not None]
+        ss = memo_sites(m)
+        if ss and any(any(norm(r.value) == f"{norm(C)}[{norm(K)}]" for (_, _, C, K) in ss) for r in rets):
+            out[m.name] = m
+            continue
+        for r in rets:
+            v = r.value
+            if isinstance(v, ast.Attribute) and isinstance(v.value, ast.Name) and v.value.id == "self":
+                x = v.attr
+                for g in ast.walk(m.node):
+                    if isinstance(g, ast.If) and (f"self.{x}" in norm(g.test) or f"'{x}'" in norm(g.test)) and \
+                            any(isinstance(st, ast.Assign) and any(norm(t) == f"self.{x}" for t in st.targets) for b in g.body for st in ast.walk(b)):
+                        out[m.name] = m
+    return out
+
+
 def check_memo_results_not_mutated(rule, idx, cls) -> int:
     """The object a memoised provider returns IS the cache entry.  A caller that changes it in place (`w += …`, `w[...] = …`, `w.fill(…)`)
-    changes what every later call with the same key gets.  Flags in-place updates of names bound directly to such a call."""
-    from ..defuse import DefUse
-    providers = {}
-    for m in cls.methods.values():
-        ss = memo_sites(m)
-        if not ss:
-            continue
-        rets = [r for r in ast.walk(m.node) if isinstance(r, ast.Return) and r.value is not None]
-        if any(any(norm(r.value) == f"{norm(C)}[{norm(K)}]" for (_, _, C, K) in ss) for r in rets):
-            providers[m.name] = m
+    changes what every later call with the same key gets.  The result of such a call is followed through tuple unpacking, subscripts and
+    iteration over `.items()` / `.values()`; an in-place update of anything reached is reported."""
+    providers = cache_providers(cls)
     n = 0
     if not providers:
         return 0
+
+    def is_provider_call(v):
+        return isinstance(v, ast.Call) and isinstance(v.func, ast.Attribute) and isinstance(v.func.value, ast.Name) and v.func.value.id in ("self", "cls") \
+            and v.func.attr in providers
     for f in cls.methods.values():
+        if f.name in providers:
+            continue
         S = None
+        # names that (may) refer to the cached object or to a part of it
+        tainted: Dict[str, str] = {}
+        changed = True
+        while changed:
+            changed = False
+            for st in ast.walk(f.node):
+                src = None
+                tg = None
+                if isinstance(st, ast.Assign) and len(st.targets) == 1:
+                    tg, src = st.targets[0], st.value
+                elif isinstance(st, (ast.For, ast.comprehension)):
+                    tg, src = st.target, st.iter
+                if src is None:
+                    continue
+                base = src
+                while True:
+                    if isinstance(base, ast.Subscript):
+                        base = base.value
+                    elif isinstance(base, ast.Call) and isinstance(base.func, ast.Attribute) and base.func.attr in ("items", "values") and not base.args:
+                        base = base.func.value
+                    elif isinstance(base, ast.Call) and call_name(base) in ("enumerate", "zip", "list", "tuple", "iter", "reversed") and base.args:
+                        base = base.args[0]
+                    else:
+                        break
+                prov = base.func.attr if is_provider_call(base) else tainted.get(base.id) if isinstance(base, ast.Name) else None
+                if prov is None:
+                    continue
+                for nm in ast.walk(tg):
+                    if isinstance(nm, ast.Name) and nm.id not in tainted:
+                        tainted[nm.id] = prov
+                        changed = True
+        if not tainted:
+            continue
         for st in ast.walk(f.node):
             tgt = None
-            how = None
-            if isinstance(st, ast.AugAssign) and isinstance(st.target, ast.Name):
-                tgt, how = st.target, f"`{norm1(st)}`"
-            elif isinstance(st, ast.AugAssign) and isinstance(st.target, ast.Subscript) and isinstance(st.target.value, ast.Name):
-                tgt, how = st.target.value, f"`{norm1(st)}`"
-            elif isinstance(st, ast.Assign) and isinstance(st.targets[0], ast.Subscript) and isinstance(st.targets[0].value, ast.Name):
-                tgt, how = st.targets[0].value, f"`{norm1(st)}`"
+            if isinstance(st, ast.AugAssign):
+                t = st.target
+                while isinstance(t, ast.Subscript):
+                    t = t.value
+                tgt = t if isinstance(t, ast.Name) else None
+            elif isinstance(st, ast.Assign) and isinstance(st.targets[0], ast.Subscript):
+                t = st.targets[0]
+                while isinstance(t, ast.Subscript):
+                    t = t.value
+                tgt = t if isinstance(t, ast.Name) else None
             elif isinstance(st, ast.Expr) and isinstance(st.value, ast.Call) and isinstance(st.value.func, ast.Attribute) and st.value.func.attr in INPLACE_METHODS \
                     and isinstance(st.value.func.value, ast.Name):
-                tgt, how = st.value.func.value, f"`{norm1(st)}`"
-            if tgt is None:
+                tgt = st.value.func.value
+            if tgt is None or tgt.id not in tainted:
                 continue
+            # the name must still refer to the cached object here (not re-bound to a fresh array in between)
             S = S or Sem(idx, f)
             try:
-                ds = S.du.reaching(tgt.id, S.cfg.node(st))
+                ds = S.du.reaching(tgt.id, S.cfg.node(st)) if not isinstance(st, ast.AugAssign) or not isinstance(st.target, ast.Name) else \
+                    [d for d in S.du.reaching(tgt.id, S.cfg.node(st))]
             except AnalysisError:
+                ds = []
+            fresh = ds and all(d.kind == "assign" and isinstance(d.value, ast.Call) and (call_name(d.value) in ("np.copy", "np.array", "np.zeros", "np.zeros_like", "copy.deepcopy", "copy.copy")
+                                                                                        or (isinstance(d.value.func, ast.Attribute) and d.value.func.attr == "copy")) for d in ds)
+            if fresh:
                 continue
-            for d in ds:
-                v = d.value
-                if d.kind == "assign" and isinstance(v, ast.Call) and isinstance(v.func, ast.Attribute) and isinstance(v.func.value, ast.Name) \
-                        and v.func.value.id in ("self", "cls") and v.func.attr in providers:
-                    n += 1
-                    rule.violation(f, st, f"{how} changes in place the object returned by the memoised `{v.func.attr}` — that object is the cache entry itself, so "
-                                   f"every later evaluation with the same key starts from the modified value (results depend on how often they were asked for)")
+            n += 1
+            rule.violation(f, st, f"`{norm1(st)}` changes in place an object handed out by the caching method `{tainted[tgt.id]}` — that object is the cache entry itself "
+                           f"(or part of it), so every later call starts from the modified value and earlier results that alias it change too")
     return n
